@@ -51,6 +51,12 @@ pub proof fn lemma_same_shape_wf<N, const K: usize>(a0: Arena<N, K>, a1: Arena<N
             assert(a0[c].parent == a1[c].parent);
         }
     }
+    let h = choose|h: Map<usize, nat>| ranked_down(a0, h);
+    assert(ranked_down(a1, h)) by {
+        assert forall|i: usize, l: int| a1.dom().contains(i) && 0 <= l < K && (#[trigger] a1[i].children[l]).is_some() implies h[a1[i].children[l].unwrap()] < h[i] by {
+            assert(a0[i].children[l] == a1[i].children[l]);
+        }
+    }
     assert(kids_ok(a1)) by {
         assert forall|i: usize, l: int| a1.dom().contains(i) && 0 <= l < K && (#[trigger] a1[i].children[l]).is_some() implies
             a1.dom().contains(a1[i].children[l].unwrap()) && a1[a1[i].children[l].unwrap()].parent == Some(i) by {
@@ -121,6 +127,21 @@ pub proof fn lemma_add_child_wf<N, const K: usize>(a0: Arena<N, K>, a1: Arena<N,
             if x == c {} else {
                 assert(a1[x].parent == a0[x].parent);
                 assert(a0.dom().contains(a0[x].parent.unwrap()));
+            }
+        }
+    }
+    let h = choose|h: Map<usize, nat>| ranked_down(a0, h);
+    // every old height is shifted up by one, the fresh leaf gets height 0
+    let h1 = Map::<usize, nat>::new(a1.dom(), |i: usize| if i == c { 0nat } else { (h[i] + 1) as nat });
+    assert(ranked_down(a1, h1)) by {
+        assert forall|i: usize, l: int| a1.dom().contains(i) && 0 <= l < K && (#[trigger] a1[i].children[l]).is_some() implies h1[a1[i].children[l].unwrap()] < h1[i] by {
+            if i == c { assert(a1[c].children[l].is_none()); }
+            else if i == parent && l == label {}
+            else {
+                assert(a1[i].children[l] == a0[i].children[l]);
+                let x = a0[i].children[l].unwrap();
+                assert(a0.dom().contains(x));
+                assert(x != c);
             }
         }
     }
@@ -249,6 +270,12 @@ pub proof fn lemma_descendants_removed_wf<N, const K: usize>(a0: Arena<N, K>, a1
     let d = choose|d: Map<usize, nat>| ranked(a0, d);
     assert forall|x: usize| a1.dom().contains(x) implies a1[x].parent == a0[x].parent by {}
     assert(ranked(a1, d));
+    let h = choose|h: Map<usize, nat>| ranked_down(a0, h);
+    assert(ranked_down(a1, h)) by {
+        assert forall|i: usize, l: int| a1.dom().contains(i) && 0 <= l < K && (#[trigger] a1[i].children[l]).is_some() implies h[a1[i].children[l].unwrap()] < h[i] by {
+            if i == n { assert(a1[n].children[l].is_none()); } else { assert(a1[i] == a0[i]); }
+        }
+    }
     assert(kids_ok(a1)) by {
         assert forall|i: usize, l: int| a1.dom().contains(i) && 0 <= l < K && (#[trigger] a1[i].children[l]).is_some() implies
             a1.dom().contains(a1[i].children[l].unwrap()) && a1[a1[i].children[l].unwrap()].parent == Some(i) by {
@@ -339,6 +366,12 @@ pub proof fn lemma_child_removed_wf<N, const K: usize>(a0: Arena<N, K>, a1: Aren
     assert(a1[parent].children[label as int].is_none()) by { assert(a1[parent].children@[label as int] == None::<usize>); }
     assert forall|x: usize| a1.dom().contains(x) implies a1[x].parent == a0[x].parent by {}
     assert(ranked(a1, d));
+    let h = choose|h: Map<usize, nat>| ranked_down(a0, h);
+    assert(ranked_down(a1, h)) by {
+        assert forall|i: usize, l: int| a1.dom().contains(i) && 0 <= l < K && (#[trigger] a1[i].children[l]).is_some() implies h[a1[i].children[l].unwrap()] < h[i] by {
+            if i == parent { assert(l != label); assert(a1[i].children[l] == a0[i].children[l]); } else { assert(a1[i] == a0[i]); }
+        }
+    }
     assert(kids_ok(a1)) by {
         assert forall|i: usize, l: int| a1.dom().contains(i) && 0 <= l < K && (#[trigger] a1[i].children[l]).is_some() implies
             a1.dom().contains(a1[i].children[l].unwrap()) && a1[a1[i].children[l].unwrap()].parent == Some(i) by {
@@ -461,6 +494,13 @@ pub proof fn lemma_merged_wf<N, const K: usize>(a0: Arena<N, K>, a1: Arena<N, K>
     assert(ranked(a1, d)) by {
         assert forall|x: usize| a1.dom().contains(x) && (#[trigger] a1[x].parent).is_some() implies d[a1[x].parent.unwrap()] < d[x] by {
             if x == c {} else { assert(a1[x].parent == a0[x].parent); }
+        }
+    }
+    let h = choose|h: Map<usize, nat>| ranked_down(a0, h);
+    assert(h[c] < h[p] && h[p] < h[g]) by { assert(a0[p].children[label as int].is_some()); assert(a0[g].children[gl].is_some()); }
+    assert(ranked_down(a1, h)) by {
+        assert forall|i: usize, l: int| a1.dom().contains(i) && 0 <= l < K && (#[trigger] a1[i].children[l]).is_some() implies h[a1[i].children[l].unwrap()] < h[i] by {
+            if i == g && l == gl {} else { assert(a1[i].children[l] == a0[i].children[l]); }
         }
     }
     assert(kids_ok(a1)) by {
@@ -889,6 +929,9 @@ impl<N, const K: usize> Tree<N, K> {
                 let a = self.arena@;
                 assert(a.dom() =~= set![idx]);
                 assert(ranked(a, Map::<usize, nat>::empty().insert(idx, 0nat)));
+                assert(ranked_down(a, Map::<usize, nat>::empty().insert(idx, 0nat))) by {
+                    assert forall|i: usize, l: int| a.dom().contains(i) && 0 <= l < K && (#[trigger] a[i].children[l]).is_some() implies false by { assert(i == idx); }
+                }
                 assert(no_kids(a[idx]));
             }
         }
